@@ -250,3 +250,50 @@ Proof.
       destruct (fx2 f && (e - t <=? 0)); inversion Hp; lia.
     + intros en [].
 Qed.
+
+(** ** the repaired code: no guard can fire, so correspondence alone implies the property predicate *)
+
+Lemma existsb_const_false {A} (p : A -> bool) l : (forall x, p x = false) -> existsb p l = false.
+Proof. intro H. induction l as [|x r IH]; [reflexivity|]. simpl. rewrite H, IH. reflexivity. Qed.
+
+Lemma guards_fixed : forall c, v_guards (check fx_all c) = [].
+Proof.
+  intros [m st exp now dmax o | m conf rule exp now dmax o | b cachable life dflt dmax o_set o_hit | b ops
+         | b [m conf rule | dflt] slack evs obs]; simpl; unfold guards; simpl.
+  - unfold guard_F1. simpl. reflexivity.
+  - unfold guard_F1, guard_F3. simpl. reflexivity.
+  - unfold g_F2. simpl. rewrite andb_false_r. reflexivity.
+  - reflexivity.
+  - rewrite existsb_const_false by (intros [[t k] fr]; unfold guard_F1; reflexivity).
+    unfold guard_F3. simpl. reflexivity.
+  - rewrite existsb_const_false by (intros [[t k] fr]; unfold g_F2; reflexivity). reflexivity.
+Qed.
+
+(** well-formedness of a recorded case: what the driver guarantees (measured
+    bracket at most [max_delay] wide, no expiry information for mechanisms that
+    have none, [hist_wf] for histories) *)
+Definition wf_case (f : fixes) (c : case) : Prop :=
+  match c with
+  | CFn _ _ _ _ dmax _ => 0 <= dmax <= max_delay
+  | CExec m _ _ exp _ dmax _ => 0 <= dmax <= max_delay /\ wf_exec m exp
+  | CHttp _ _ _ _ dmax _ _ => 0 <= dmax
+  | CCache _ _ => True
+  | CHist _ hk slack evs _ => hist_wf f hk slack evs
+  end.
+
+Theorem check_sound : forall f c,
+  wf_case f c ->
+  v_corr (check f c) = true -> v_guards (check f c) = [] -> v_prop (check f c) = true.
+Proof.
+  intros f [m st exp now dmax o | m conf rule exp now dmax o | b cachable life dflt dmax o_set o_hit | b ops
+           | b hk slack evs obs] Hwf.
+  - apply check_sound_fn. exact Hwf.
+  - destruct Hwf. apply check_sound_exec; assumption.
+  - apply check_sound_http. exact Hwf.
+  - apply check_sound_cache.
+  - apply check_sound_hist. exact Hwf.
+Qed.
+
+Theorem check_sound_fixed : forall c,
+  wf_case fx_all c -> v_corr (check fx_all c) = true -> v_prop (check fx_all c) = true.
+Proof. intros c Hwf Hc. apply check_sound; [exact Hwf | exact Hc | apply guards_fixed]. Qed.
